@@ -44,6 +44,17 @@ with |b| <= |a| R (R = radius of the mesh about c).  The residual is relative to
 offset much larger than |a| R would multiply the (K 1 + 1/2 = 0) quadrature error by |b| / (|a| R), which the statement's
 "1e-6 of the right-hand side" cannot absorb, hence the restriction on b.
 
+Admissible shapes ("bounded aspect ratio"): smallest interior dihedral angle >= 64 degrees and smallest triangle angle >=
+28 degrees (mesh_quality); a variant that violates this is regenerated without the stretch / perturbation step.  Measured
+reason: on 4-element tetrahedra the residual at singular order 10 is 1e-7 for a 62 degree wedge, 8e-7 for 57 degrees
+and 2.7e-5 for 50 degrees (the Duffy rules converge more slowly across sharp edges; this is quadrature, not a defect).
+
+Cost: every identity needs about five Numba specialisations (most of the quick tier's time); the compute part is
+single-threaded (numba.set_num_threads(VERIF_ORACLE_THREADS, default 1): more threads are much slower on a busy machine)
+and is dominated by the pure-Python set-up of the Duffy rules, about 1 s per operator at singular order 10, 2.5 s at 12,
+6 s at 14, independent of the mesh.  The budget (C01_ORACLE_BUDGET_S) is CPU time with the first mesh (compilation) not
+charged.
+
 Mesh families (counterexample keys name identity, dual space, family and the failed criterion):
     convex (tetrahedron, octahedron, cube(n), icosahedron), nonconvex (lshape), genus1 (torus_voxel),
     multi (union of two translated closed meshes; u may be a DIFFERENT affine function on each component, which is still
@@ -169,7 +180,7 @@ def mesh_quality(V, E):
 
 
 MIN_DIHEDRAL = 64.0     # degrees; the statement's "bounded aspect ratio": sharper wedges slow the Duffy rules down
-MIN_TRI_ANGLE = 22.0    # (a stretched 4-element tetrahedron with a 50 degree wedge still has 2.7e-5 at singular order 10)
+MIN_TRI_ANGLE = 28.0    # (a stretched 4-element tetrahedron with a 50 degree wedge still has 2.7e-5 at singular order 10)
 
 
 def make_mesh(name, variant, rng):
@@ -177,7 +188,7 @@ def make_mesh(name, variant, rng):
     V, E, fam, comp = base_mesh(name)
     desc = [name]
     if "stretch" in variant:
-        f = [1.0, rng.uniform(1.2, 1.6), rng.uniform(0.65, 0.85)]
+        f = [1.0, rng.uniform(1.1, 1.3), rng.uniform(0.8, 0.9)]
         V = _stretch(V, f)
         desc.append("stretch(%.3f,%.3f,%.3f)" % tuple(f))
     if "perturb" in variant:
@@ -422,7 +433,7 @@ def oracle(ctx, deep=False, cal=False, only=None):
     n_random = ctx.pick(2, 3) if not deep else 5
     worst = {}      # (ident, rung) -> worst residual (non-constant functions)
     worst_const = {}
-    reached, climbed = {}, {}
+    reached, climbed, final_worst = {}, {}, {}
     n_extra, max_extra = 0, (4 if not deep else 1000)
     jit_cpu = 0.0   # CPU time dominated by Numba compilation (the whole first mesh: grid, spaces, operators; later the
     #                 first rung of a mesh beyond 1 s): not charged to the budget
@@ -470,6 +481,7 @@ def oracle(ctx, deep=False, cal=False, only=None):
             tr = [(lab, A, B) + traces(grid, mesh, A, B, c, spaces["p1"], spaces["dp0"]) for (lab, A, B) in fs]
             per_rung = {ident: [] for ident in these}
             per_rung_const = {ident: [] for ident in these}
+            const_fail = {}
             t_mesh, c_mesh = time.time(), time.process_time()
             ri = 0
             last = top
@@ -496,7 +508,7 @@ def oracle(ctx, deep=False, cal=False, only=None):
                             per_rung_const[ident].append(r)
                             bound = CONST_W_TOL if ident == "I2/p1" else CONST_BOUND[LADDER[ri]]
                             if r > bound:
-                                _report(res, mesh, ident, "constants", reg, sing, r, bound, lab, A, B, c, d, lhs, rhs)
+                                const_fail[ident] = (reg, sing, r, bound, lab, A, B, d, lhs, rhs)   # highest rung wins
                             continue
                         if r > w:
                             w, wdet = r, (lab, A, B, d, lhs, rhs)
@@ -539,9 +551,14 @@ def oracle(ctx, deep=False, cal=False, only=None):
                     lab, A, B, d, lhs, rhs = seq[ri][1]
                     _report(res, mesh, ident, what, LADDER[ri][0], LADDER[ri][1], seq[ri][0], bnd(ri), lab, A, B, c, d,
                             lhs, rhs, ladder=lad, failing=[list(LADDER[i]) for i in bad])
-                if len(seq) - 1 >= TARGET_RUNG:
+                if ident in const_fail:
+                    reg, sing, r, bound, lab, A, B, d, lhs, rhs = const_fail[ident]
+                    _report(res, mesh, ident, "constants", reg, sing, r, bound, lab, A, B, c, d, lhs, rhs,
+                            ladder=per_rung_const[ident])
+                if len(seq) - 1 >= TARGET_RUNG and extend:
                     reached[ident] = reached.get(ident, 0) + (1 if seq[-1][0] <= TARGET else 0)
                     climbed[ident] = max(climbed.get(ident, 0), len(seq) - 1)
+                    final_worst[ident] = max(final_worst.get(ident, 0.0), seq[-1][0])
             done += 1
             if done == 1:
                 jit_cpu = time.process_time() - c_start
@@ -560,6 +577,8 @@ def oracle(ctx, deep=False, cal=False, only=None):
     for ident in reached:
         res.stats[f"meshes_reaching_1e-6_{ident}"] = reached[ident]
         res.stats[f"highest_rung_needed_{ident}"] = "r%ds%d" % LADDER[climbed[ident]]
+        res.stats[f"worst_at_final_rung_{ident}"] = float("%.3e" % final_worst[ident])
+        res.stats[f"margin_target_1e-6_{ident}"] = float("%.3g" % (TARGET / final_worst[ident])) if final_worst[ident] else float("inf")
     res.stats["meshes"] = done
     res.stats["edge_remap_cases_seen"] = len({(a, b) for (a, b, _, _) in edge_cov} | {(c_, d_) for (_, _, c_, d_) in edge_cov})
     res.stats["vertex_remap_cases_seen"] = len({a for (a, _) in vert_cov} | {b for (_, b) in vert_cov})
